@@ -143,3 +143,53 @@ class _Dummy:
 
     def require_positive_divisor(self, b):
         pass
+
+
+# ---------------------------------------------------------------------- symmetries (C07)
+def _sub(entries, pairs):
+    return _subst(entries, pairs)
+
+
+def check_symmetry(spec, which):
+    """Relational identities on the EXTRACTED step matrix (frozen coefficients):
+       mirror-x:  Step(lx, u)            == Step(-lx, -u)
+       mirror-y:  Step(ly, v)            == Step(-ly, -v)
+       swap:      Step(lx,ly,u,v,Kx,Ky)  == Step(ly,lx,v,u,Ky,Kx)
+       length:    Step(lx/s, ly/s, s*h, s*K) == Step(lx, ly, h, K)
+       speed:     Step(c*u, c*v, c*K) == D^-1 Step D,  D = diag(c, 1)"""
+    sym._ENGINE[0] = sym._ENGINE[0] or _Dummy()
+    entries, h = _prep(spec, freeze=True)
+    H = {k: num(v).t for k, v in spec["here"].items()}
+    lx, ly = num(spec["lx"]).t, num(spec["ly"]).t
+    s = z3.Real("s_scale")
+    if which == "mirror-x":
+        pairs = [(lx, -lx), (H["u"], -H["u"])]
+    elif which == "mirror-y":
+        pairs = [(ly, -ly), (H["v"], -H["v"])]
+    elif which == "swap":
+        pairs = [(lx, ly), (ly, lx), (H["u"], H["v"]), (H["v"], H["u"]), (H["Kx"], H["Ky"]), (H["Ky"], H["Kx"])]
+    elif which == "length":
+        pairs = [(lx, lx / s), (ly, ly / s), (h, s * h)] + [(H[k], s * H[k]) for k in ("Kx", "Ky", "Kz")]
+    elif which == "speed":
+        pairs = [(H[k], s * H[k]) for k in ("u", "v", "Kx", "Ky", "Kz")]
+    else:
+        raise ValueError(which)
+    other = _sub(entries, pairs)
+    case = _case()
+    sc = Cx(Num(s, True), 0)
+    want = dict(entries)
+    if which == "speed":
+        want = {"A": entries["A"], "B": entries["B"] / sc, "C": entries["C"] * sc, "D": entries["D"]}
+    bad = []
+    for e in "ABCD":
+        for part in ("re", "im"):
+            a = num(getattr(other[e], part))
+            b = num(getattr(want[e], part))
+            ra = case.norm(a.zr() if not a.concrete else z3.RealVal(str(Fraction(a.t))))
+            rb = case.norm(b.zr() if not b.concrete else z3.RealVal(str(Fraction(b.t))))
+            if not ra.equals(rb):
+                bad.append(e + "." + part)
+    if bad:
+        return {"result": "sat", "model": {"symmetry": which, "entries": bad},
+                "value_failure": {"detail": "step matrix is not invariant under %s in entries %s" % (which, bad)}}
+    return {"result": "unsat"}
